@@ -38,10 +38,10 @@ theorem smtlib2_subset_logics : ∀ l ∈ SMTLIB2_LOGICS, l ∈ LOGICS := by dec
 
 /-- `get_logic` (by flags) finds every member of `LOGICS` -/
 theorem get_logic_finds : ∀ l ∈ LOGICS,
-    get_logic l.quantifier_free l.theory.arrays l.theory.arrays_const l.theory.bit_vectors
+    (get_logic l.quantifier_free l.theory.arrays l.theory.arrays_const l.theory.bit_vectors
       l.theory.floating_point l.theory.integer_arithmetic l.theory.real_arithmetic
       l.theory.integer_difference l.theory.real_difference l.theory.linear l.theory.uninterpreted
-      l.theory.custom_type l.theory.strings = .ok l := by decide +kernel
+      l.theory.custom_type l.theory.strings).toOption = some l := by decide +kernel
 
 /-! ### the two table-specific selection functions -/
 
